@@ -196,9 +196,17 @@ def gen_engine_spec(rng, rated, curve_emissions=None, dual=None, speed=None):
     if dual is None:
         dual = rng.random() < 0.2
     if dual:
-        e["fuel_type"], e["fuel_origin"] = "NATURAL_GAS", str(rng.choice(["FOSSIL", "BIO"]))
-        e["cycle"] = str(rng.choice(["DIESEL", "OTTO"]))
-        e["dual"] = {"bspfc": gen_value_curve(rng, 1, 12), "pilot_type": "DIESEL", "pilot_origin": "FOSSIL"}
+        r = rng.random()
+        if r < 0.6:       # the usual gas engine with a diesel pilot
+            e["fuel_type"], e["fuel_origin"] = "NATURAL_GAS", str(rng.choice(["FOSSIL", "BIO"]))
+            e["cycle"] = str(rng.choice(["DIESEL", "OTTO"]))
+            pilot = ("DIESEL", str(rng.choice(["FOSSIL", "BIO"], p=[0.8, 0.2])))
+        elif r < 0.8:     # liquid-fuel back-up mode: pilot of the same kind as the main fuel
+            pilot = (e["fuel_type"], e["fuel_origin"])
+        else:             # same type, other origin
+            others = [o for (t, o) in FUELS_ENGINE if t == e["fuel_type"] and o != e["fuel_origin"]]
+            pilot = (e["fuel_type"], others[0] if others else e["fuel_origin"])
+        e["dual"] = {"bspfc": gen_value_curve(rng, 1, 12), "pilot_type": pilot[0], "pilot_origin": pilot[1]}
     return e
 
 
